@@ -316,8 +316,14 @@ def build(tier):
     targets += c10_predict_targets()
     import linear_spec
     targets += linear_spec.targets()
+    import predict_spec
+    targets += predict_spec.targets(tier)
+    import average_smt
+    vcs = average_smt.vcs()
+    if tier == 'thorough':
+        vcs += predict_spec.c13_stats_vcs()
     return {
-        'targets': targets, 'vcs': [],
+        'targets': targets, 'vcs': vcs,
         'decided': ['early-stopping monitor transition = specification, for every observation and prior state; constructor (round 0, value +max, given snapshot) and round() / value() / values() accessors',
                     'gboost::result_t: constructor allocates a statistics row for every round 0..max_rounds, no learners; update(round, ..) stays inside m_statistics; done(round) keeps exactly `round` learners and round + 1 rows',
                     '::fit round loop (src/gboost/model.cpp): #learners == round at the loop head; the monitor is consulted once before the first round and once per appended learner with the CURRENT learner list and the configured epsilon / patience, never after it has stopped; '
@@ -351,11 +357,40 @@ def build(tier):
                     'linear_t::fit: tuning runs on the samples given to fit(); exactly one refit after it, with params(optimum_trial()) (inside its precondition) on ALL given samples; m_weights / m_bias are the up-scaled weights / '
                     'bias of that refit; the final statistics are evaluated with exactly the stored weights / bias on the samples given to fit() and stored exactly once together with the refit result',
                     'try_merge step of wlearner::merge (sum preservation): do_try_merge adds the other tables exactly when feature and table dimensions agree, else changes nothing; '
-                    'table_wlearner_t / affine_wlearner_t::try_merge attempt it only with a learner of the same kind, its feature and its tables, and for look-up tables only with equal label hashes AND equal hash -> table mapping'],
-        'not_decided': ['statistics equal those recomputed from scratch by predicting (numeric equality through loss/predict)',
-                        'linear models: linear_t::make_x0 (warm start: numerics), the four make_function overrides (ordinary / lasso / ridge / elastic net) and linear::predict are used through assumed contracts; '
-                        'linear_t::do_predict (the stored model is what predict() uses) is not under contract; ml::tune is used through the clauses C13 proves (the callback runs once per (trial, fold) on that fold\'s split '
-                        'and its three results are stored under (trial, fold)): the composition callback-contract + C13 is by reading, not machine-checked'],
+                    'table_wlearner_t / affine_wlearner_t::try_merge attempt it only with a learner of the same kind, its feature and its tables, and for look-up tables only with equal label hashes AND equal hash -> table mapping',
+                    'gboost_model_t::do_predict (predict.h; ghost output cell, ghost learner position): the cell is overwritten exactly once, with the coefficient of m_bias (rowwise broadcast over a (samples, outputs) view of the buffer of the call), '
+                    'BEFORE any learner contributes; then every learner of m_wlearners predicts exactly once (the learner at the ghost position exactly once) with the samples and the outputs buffer of the call; nothing else touches the buffer -- '
+                    'with the *_do_predict contracts of specs/C10 (the selected table is ADDED to the row): prediction == bias + sum of the learners\' predictions',
+                    'learner_t::predict(dataset, samples, outputs): do_predict exactly once with the same samples / outputs (or an exception of the compatibility check, then not at all); predict(dataset, samples): a buffer with one row per sample, zeroed, then '
+                    'predicted into exactly once, and that buffer is returned; learner_t::evaluate (levaluate.h, ghost position): result (2, #samples); every listed sample predicted exactly once by this model on the slice of `samples` of its chunk, '
+                    'error -> row 0, loss value -> row 1, each once, from that chunk\'s targets and these predictions',
+                    'AVERAGING LEMMA (average_smt.py, SMT over the reals, induction over folds / learner positions, one VC per base case and step): from the proved contracts -- do_predict = bias + sum of contributions (final model and fold models), '
+                    'gboost_model_t::fit (bias = (0 + sum of fold biases) * 1/folds; one clone of every fold learner; merge; every merged learner scaled by 1/folds once), try_merge (the two tables are added, sum of contributions preserved), '
+                    'C10 scale (tables * factor) -- the final prediction at every output cell equals (sum over the folds of the fold model\'s prediction) / folds; sanity VCs: hypotheses satisfiable; with unscaled learners the mean is refuted',
+                    'linear_t::do_predict (linear_predict.h, ghost position): one iterator over the given samples with scaling none; every position predicted exactly once with the STORED m_weights / m_bias (identities) from the inputs of the chunk '
+                    'that holds it, into its own row of the outputs buffer of the call (outputs.slice(range) of the same range)',
+                    'make_function of ordinary_t / lasso_t / ridge_t / elastic_net_t: the objective is built over the GIVEN iterator with (l1, l2) = (0, 0) / (params(0), 0) / (0, params(0)) / (params(0), params(1)) (bit-identical doubles, params(k) inside the '
+                    'trial\'s row); linear::function_t constructor: remembers that iterator, m_l1reg <- l1reg and m_l2reg <- l2reg (each in its own member), smooth iff the loss is smooth and l1 <= 0, convex iff the loss is',
+                    '::make_x0 of src/linear.cpp (ghost coefficient): zero vector of the objective\'s dimension; without a warm start nothing else is written; with one, coefficient k is weights(k) for k < #weights and bias(k - #weights) for the next #bias '
+                    'coefficients (the layout function_t::weights / bias read), each written exactly once, every segment inside the vector with as many coefficients on both sides',
+                    'COMPOSITION, linear side (linear_fit_tuned: the real linear_t::fit with ml::tune modelled by the clauses specs/C13 proves and the REAL callback -- a lambda variable handed to tune -- called from that model through the contract '
+                    'linear_fit_callback proves): at a ghost task (trial, fold) of the returned result the callback ran once on that fold\'s split with row `trial` of the parameter table; the model stored under extra(trial, fold) was fitted in that '
+                    'task on that fold\'s TRAINING samples with THAT trial\'s hyper-parameters; the statistics stored under (trial, fold, train | valid) are the values of THAT model on that fold\'s training resp. validation samples; '
+                    'exactly one refit after tuning; all clauses of linear_model_fit still hold',
+                    'tuning callback of gboost_model_t::fit (gmodel_fit_callback; ::fit through its proved contract, made replaceable): one boosting run per task from the model\'s own prototypes with the task\'s hyper-parameters on the task\'s '
+                    '(train, valid) lists -- a swap violates the precondition of ::fit --; first result = the kept round\'s per-sample values selected by the TRAINING samples, second = the same selected by the VALIDATION samples, third = the fold model '
+                    '(keeps the learners of the last accepted round); thorough tier: gboost_tune_task composes it with C13\'s store(trial, fold, first, second, third) clauses at a ghost task',
+                    'percentile helper of src/machine/stats.cpp: hands the WHOLE range of the given values and the given percentage to nano::percentile once and returns its result; thorough tier, by reference: the VCs of specs/C13 for '
+                    'ml::store_stats / load_stats (element k of a block = member k of stats_t = statistic k of exactly the given values) and result_t::store / stats / extra (cell(trial, fold, split, value), slot(trial, fold))'],
+        'not_decided': ['statistics equal those recomputed from scratch by predicting: NUMERIC equality through loss / predict / mean / stdev / percentile values (protocol level only: which model, which samples, which row, which slot)',
+                        'linear::predict, linear::function_t::do_vgrad (how m_l1reg / m_l2reg enter the objective: C09), the dimension (isize + 1) * tsize and the strong-convexity constant of linear::function_t (64-bit products: '
+                        'CBMC does not decide equalities between multiplier circuits), make_param_spaces (which NAME the tuner shows for params(k)) are not under contract here',
+                        'gboost side of the composition inside gboost_model_t::fit itself: gmodel_fit still uses ml::tune through an assumed stub (extra(optimum_trial, fold) holds what the callback returned: C13); the callback contract + the '
+                        'per-task harness gboost_tune_task are machine-checked, the step "the object any_cast reads in the averaging block is the third result of that task" is by reading',
+                        'averaging lemma: the identification of a learner\'s CONTRIBUTION at a cell with "the table row its do_predict adds" (C10) and of scale(v) with "contribution * v" is stated as hypotheses P1-P4 of the lemma, not derived mechanically; '
+                        'floating-point rounding of the average (double as Real)',
+                        'tensor_t::mean / stdev (Eigen reductions) and nano::percentile (C20) are used through assumed contracts; observation outside the statement (no obligation): tensor_t::stdev(), documented as the sample '
+                        'standard deviation, returns sqrt(population variance / (n - 1)) = the standard error of the mean, so stats_t::m_stdev holds that (specs/C11/FINDING_stdev_is_standard_error.md, native demonstration)'],
         'assumptions': ['gboost::mean_error is a deterministic function of (errors, samples) (assumed contract)',
                         'gboost parameters inside their registered domains: 10 <= max_rounds <= 10^6, 1 <= patience <= 1000 (gboost_model_t constructor; C19)',
                         'history lemma: 1 <= patience <= 2^62 and at most 2^62 observations (so that round + patience does not wrap in size_t); the initial state of the monitor counts as an accepted improvement at round 0 '
@@ -374,7 +409,14 @@ def build(tier):
                         'of the objective it was given; function_t::bias / weights extract the two parts of a solution; ::upscale rewrites (weights, bias) in place (C14: the affine map it computes); linear::predict writes one output row per '
                         'input row; loss_t::error / value write one destination element per (target row, output row); ml::tune returns trials() >= 1, 0 <= optimum_trial() < trials() (C13); params(trial) is row `trial` of the parameter table; '
                         'lists of at most 10^9 samples; learner_t::fit_dataset touches the learner_t base only; dropped statements: iterator.batch / cache_flatten / cache_targets, fit_params.log, loggers',
-                        'a fold model holds at most 10^6 learners (gboost::max_rounds domain); m_optims of ml::result_t is (2, 12) (its constructor, specs/C13/result_ctor.h); store(values, ..) is given a (2, n) tensor (::selected, proved here)'],
+                        'a fold model holds at most 10^6 learners (gboost::max_rounds domain); m_optims of ml::result_t is (2, 12) (its constructor, specs/C13/result_ctor.h); store(values, ..) is given a (2, n) tensor (::selected, proved here)',
+                        'prediction side (predict.h / linear_predict.h / levaluate.h): M.rowwise() = v.transpose() makes every row of M equal to v (Eigen); outputs.reshape(n, -1) / .tensor() / .slice(range) are views of the same buffer (C16); '
+                        'wlearner_t::predict ADDS the learner\'s value to the row of each sample (C10 *_do_predict + learner_t::predict proved here); x0.segment(o, n) = t.array() copies coefficient-wise (Eigen); std::any_cast returns the held '
+                        'result; a warm start has the shape of the objective (function.size() == #weights + #bias: same dataset); targets_iterator_t defaults to scaling none (default member initialiser of the header); '
+                        'isize / tsize of the objective in [1, 10^6]; indices_cmap_t::slice(range) is the sub-list (C16)',
+                        'composition targets: ml::tune is modelled by exactly the clauses specs/C13 proves (a task per (trial, fold) of the result; the callback gets splits[fold] and row `trial` of the parameter table; store(trial, fold, first, second, '
+                        'third)); the split lists are training / validation lists of the samples given to tune (C12); tune may throw',
+                        'averaging lemma: double as Real; hypotheses P1-P4 (restated contracts, see average_smt.py)'],
         'trusted': [],
     }
 
